@@ -1,6 +1,7 @@
 // C34 correspondence harness: the REAL AuthorizeTierOperation with a scripted authorizer that answers
 // by the ATTRIBUTES it is asked about (not by call order) and releases the three concurrent checks in a
-// chosen order (schedule perturbation).  Also runs the race probe (cmd/c34race built with -race).
+// chosen order (schedule perturbation).  Built with -race (checks/C34.json go_build_flags); re-runs itself in
+// probe mode so that a race report becomes a concrete oracle failure instead of a bare exit code 66.
 package main
 
 import (
@@ -9,8 +10,7 @@ import (
 	"fmt"
 	"os"
 	"os/exec"
-	"path/filepath"
-	"runtime"
+		"runtime"
 	"strings"
 	"sync"
 	"time"
@@ -204,27 +204,56 @@ func exec1(h *rt.H, op string) string {
 	return out
 }
 
-// raceProbe builds cmd/c34race with the race detector against the tree being checked and runs it.
+// probeMain is the race probe (child process, env VERIF_C34_PROBE=1): the three answers rendezvous, so
+// the three goroutines of AuthorizeTierOperation are all in flight together; the race detector this
+// binary is built with (checks/C34.json go_build_flags -race) reports any unsynchronised access.
+type rendezvous struct {
+	scripted
+	bar *sync.WaitGroup
+}
+
+func (r *rendezvous) Authorize(ctx context.Context, a k8sauth.Attributes) (k8sauth.Decision, string, error) {
+	r.bar.Done()
+	r.bar.Wait()
+	return k8sauth.DecisionAllow, "", fmt.Errorf("scripted error for %s", a.GetName())
+}
+
+func (r *rendezvous) ConditionsAwareAuthorize(ctx context.Context, a k8sauth.Attributes) k8sauth.ConditionsAwareDecision {
+	return k8sauth.ConditionsAwareDecisionFromParts(r.Authorize(ctx, a))
+}
+
+func probeMain() {
+	for i := 0; i < 20; i++ {
+		bar := &sync.WaitGroup{}
+		bar.Add(3)
+		ta := authorizer.NewTierAuthorizer(&rendezvous{bar: bar})
+		ctx := genericapirequest.WithUser(context.Background(), &user.DefaultInfo{Name: "u"})
+		ctx = genericapirequest.WithRequestInfo(ctx, &genericapirequest.RequestInfo{
+			IsResourceRequest: true, Path: "/apis/projectcalico.org/v3/namespaces/ns/networkpolicies/default.p", Verb: "get",
+			APIGroup: "projectcalico.org", APIVersion: "v3", Resource: "networkpolicies", Name: "default.p", Namespace: "ns",
+		})
+		if err := ta.AuthorizeTierOperation(ctx, "default.p", "default"); err != nil {
+			fmt.Println("unexpected deny:", err)
+			os.Exit(3)
+		}
+	}
+	fmt.Println("no race reported")
+}
+
+// raceProbe re-executes this binary in probe mode and turns a race report into an oracle failure.
 func raceProbe(h *rt.H) {
-	if os.Getenv("VERIF_C34_NO_RACE") != "" {
-		h.Extra["race_probe"] = "disabled by VERIF_C34_NO_RACE"
+	if !raceEnabled {
+		h.Extra["race_probe"] = "unavailable: harness not built with -race (checks/C34.json go_build_flags)"
 		return
 	}
-	cwd, _ := os.Getwd()
-	bin := filepath.Join(h.OutDir, "c34race.bin")
-	ctx, cancel := context.WithTimeout(context.Background(), 20*time.Minute)
-	defer cancel()
-	cmd := exec.CommandContext(ctx, "go", "build", "-race", "-tags", "verif", "-o", bin, "./cmd/c34race")
-	cmd.Dir = cwd
-	cmd.Env = append(os.Environ(), "GOFLAGS=-mod=mod", "GOPROXY=off")
-	if outb, err := cmd.CombinedOutput(); err != nil {
-		h.Extra["race_probe"] = "unavailable: go build -race failed: " + clip(string(outb), 300)
+	self, err := os.Executable()
+	if err != nil {
+		h.Extra["race_probe"] = "unavailable: " + err.Error()
 		return
 	}
-	run := exec.Command(bin)
-	run.Env = append(os.Environ(), "GORACE=exitcode=66 halt_on_error=1")
+	run := exec.Command(self)
+	run.Env = append(os.Environ(), "VERIF_C34_PROBE=1", "GORACE=exitcode=66 halt_on_error=1")
 	outb, err := run.CombinedOutput()
-	os.Remove(bin)
 	code := 0
 	if ee, ok := err.(*exec.ExitError); ok {
 		code = ee.ExitCode()
@@ -247,8 +276,8 @@ func raceProbe(h *rt.H) {
 		}
 		h.Extra["race_probe"] = "DATA RACE reported"
 		h.Count("race-probe:race")
-		h.OracleFail(sig, "go build -race probe: the race detector reports a data race inside AuthorizeTierOperation (three goroutines store into the shared captured `err`)",
-			map[string]any{"probe": "harness/cmd/c34race", "report": lines})
+		h.OracleFail(sig, "race probe (this harness re-run in probe mode, built with -race): the race detector reports a data race inside AuthorizeTierOperation",
+			map[string]any{"probe": "VERIF_C34_PROBE=1 <harness binary>", "report": lines})
 	case code == 0:
 		h.Extra["race_probe"] = "no race reported"
 		h.Count("race-probe:clean")
@@ -268,6 +297,10 @@ var answers = []string{"a", "d", "n", "ae", "de", "ne"}
 var orders = []string{"012", "021", "102", "120", "201", "210"}
 
 func main() {
+	if os.Getenv("VERIF_C34_PROBE") != "" {
+		probeMain()
+		return
+	}
 	h := rt.New()
 	defer h.Close()
 	h.Rule = "exhaustive: 6^3 answer triples (decision x error) x 6 release orders for an ordinary name, 6^3 x 1 for the name '<tier>.*', plus no-authorizer / no-attributes cases; then random repeats; " +
